@@ -3,7 +3,7 @@
     Definitions only (extracted and run against the real application). *)
 From Coq Require Import Strings.String Strings.Byte.
 From Coq Require Import List Arith NArith ZArith Bool.
-From PV Require Import Base.Bytes Base.Outcome Base.KV Compkey.Model Aol.Model Valid.Aol Bank.Model Did.Model Pnft.Model.
+From PV Require Import Base.Bytes Base.Utf8 Base.Outcome Base.KV Compkey.Model Aol.Model Valid.Aol Bank.Model Did.Model Pnft.Model.
 From PV Require Generated.GenConst Generated.GenNft Generated.GenApp.
 Import ListNotations.
 
@@ -444,6 +444,75 @@ Section ExportImport.
       do p <- init_pnft_genesis unbech false pg;
       Ok (with_pnft (with_did (with_aol c a) d) p).
 End ExportImport.
+
+(** ** the JSON layer of the genesis file
+    The exported genesis is a JSON document: every string field passes through json.Marshal / Unmarshal, which
+    replaces each byte that is not part of a well-formed UTF-8 sequence by U+FFFD ([coerce_utf8]).  Byte fields
+    (record keys and values) are base64 and unaffected.  After the coercion the AOL genesis validation checks the
+    limits of the coerced values. *)
+Definition cu := Base.Utf8.coerce_utf8.
+Definition coerce_aol_val (v : aol_val) : aol_val :=
+  match v with
+  | VTopic d nr nw => VTopic (cu d) nr nw
+  | VWriter m d t => VWriter (cu m) (cu d) t
+  | VRecord k x t w => VRecord k x t (cu w)
+  | VOwner n => VOwner n
+  end.
+Definition coerce_gen_entries (l : list gen_entry) : list gen_entry := map (fun e => (cu (fst e), coerce_aol_val (snd e))) l.
+Definition coerce_aol_genesis (g : aol_genesis) : aol_genesis :=
+  {| g_owners := coerce_gen_entries (g_owners g); g_topics := coerce_gen_entries (g_topics g);
+     g_writers := coerce_gen_entries (g_writers g); g_records := coerce_gen_entries (g_records g) |}.
+(** Topic.Validate / Writer.Validate of the genesis values (Record.Validate checks the key twice and the address) *)
+Definition aol_val_valid (unbech : bytes -> option bytes) (v : aol_val) : bool :=
+  match v with
+  | VTopic d _ _ => match Valid.Aol.validate_description d with Ok _ => true | _ => false end
+  | VWriter m d _ => match Valid.Aol.validate_moniker m with Ok _ => (match Valid.Aol.validate_description d with Ok _ => true | _ => false end) | _ => false end
+  | VRecord k _ _ w => (blen k <=? GenConst.max_record_key_length)%N && (match unbech w with Some _ => true | None => false end)
+  | VOwner _ => true
+  end.
+Definition aol_genesis_valid (unbech : bytes -> option bytes) (g : aol_genesis) : bool :=
+  forallb (fun e => aol_val_valid unbech (snd e)) (g_topics g ++ g_writers g ++ g_records g).
+
+Definition coerce_vm (v : vmethod) : vmethod :=
+  {| vm_id := cu (vm_id v); vm_type := cu (vm_type v); vm_controller := cu (vm_controller v); vm_pubkey58 := cu (vm_pubkey58 v) |}.
+Definition coerce_rel (r : vrel) : vrel := match r with VRef i => VRef (cu i) | VDed v => VDed (coerce_vm v) end.
+Definition coerce_doc (d : did_doc) : did_doc :=
+  {| doc_contexts := option_map (map cu) (doc_contexts d); doc_id := cu (doc_id d);
+     doc_controller := option_map (map cu) (doc_controller d); doc_vms := map coerce_vm (doc_vms d);
+     doc_auth := map coerce_rel (doc_auth d); doc_assert := map coerce_rel (doc_assert d);
+     doc_keyagree := map coerce_rel (doc_keyagree d); doc_capinv := map coerce_rel (doc_capinv d);
+     doc_capdel := map coerce_rel (doc_capdel d);
+     doc_services := map (fun s => {| sv_id := cu (sv_id s); sv_type := cu (sv_type s); sv_endpoint := cu (sv_endpoint s) |}) (doc_services d) |}.
+Definition coerce_did_genesis (g : did_genesis) : did_genesis :=
+  map (fun e => (cu (fst e), {| en_doc := option_map coerce_doc (en_doc (snd e)); en_seq := en_seq (snd e) |})) g.
+
+Definition coerce_denom (d : denom) : denom :=
+  {| dn_id := cu (dn_id d); dn_name := cu (dn_name d); dn_symbol := cu (dn_symbol d); dn_description := cu (dn_description d);
+     dn_uri := cu (dn_uri d); dn_uri_hash := cu (dn_uri_hash d); dn_owner := cu (dn_owner d); dn_data := cu (dn_data d) |}.
+Definition coerce_token (t : token) : token :=
+  {| tk_class := cu (tk_class t); tk_id := cu (tk_id t); tk_uri := cu (tk_uri t); tk_uri_hash := cu (tk_uri_hash t);
+     tk_name := cu (tk_name t); tk_description := cu (tk_description t); tk_creator := cu (tk_creator t);
+     tk_created_at := tk_created_at t; tk_data := cu (tk_data t) |}.
+Definition coerce_pnft_genesis (g : pnft_genesis) : pnft_genesis :=
+  {| pg_denoms := map coerce_denom (pg_denoms g);
+     pg_pnfts := map (fun p => {| p_token := coerce_token (p_token p); p_owner := cu (p_owner p) |}) (pg_pnfts g) |}.
+
+Section ExportImportJson.
+  Variable bech : bytes -> bytes.
+  Variable unbech : bytes -> option bytes.
+  Definition export_import_json (c : chain) : outcome chain :=
+    do g0 <- export_genesis bech (c_aol c);
+    let g := coerce_aol_genesis g0 in
+    if negb (aol_genesis_valid unbech g) then Err (b "aol") 0
+    else
+      do a <- init_genesis unbech g;
+      let d := init_did (coerce_did_genesis (export_did (c_did c))) [] in
+      let pg := coerce_pnft_genesis (export_pnft bech (c_pnft c)) in
+      if negb (validate_pnft_genesis pg) then Err (b "pnft") 0
+      else
+        do p <- init_pnft_genesis unbech false pg;
+        Ok (with_pnft (with_did (with_aol c a) d) p).
+End ExportImportJson.
 
 (** ** blocks and histories *)
 (** x/authz BeginBlocker: grants whose expiration is not after the block time are removed *)
